@@ -1,7 +1,7 @@
 """Which contract families decide which property, and at what claimed level."""
 PROPS = {
     'C03': {
-        'families': ['contracts.optimizer', 'contracts.optfold', 'contracts.sigsim', 'contracts.rebuild', 'contracts.table_ops', 'contracts.determinism', 'contracts.native'],
+        'families': ['contracts.optimizer', 'contracts.optfold', 'contracts.sigsim', 'contracts.rebuild', 'contracts.table_ops', 'contracts.determinism', 'contracts.optfwd', 'contracts.native'],
         'level': 'other',
         'technique': 'frame obligation by a conservative def-use scan of the real AST + contract on the fallback path; bounded native stand-in for result equivalence',
         'text': 'Frame obligation "processing does not alter the evolution definitions" decided by a conservative scan of every store '
@@ -108,7 +108,7 @@ PROPS = {
         'not_decided': ['actual table list and rows of the database after purge/delete'],
     },
     'C11': {
-        'families': ['contracts.refs', 'contracts.sigcontainers', 'contracts.rebuild', 'contracts.native'],
+        'families': ['contracts.refs', 'contracts.sigcontainers', 'contracts.rebuild', 'contracts.optfwd', 'contracts.native'],
         'level': 'proof',
         'technique': 'contract-based deductive verification: nested loop invariants over the three signature levels, VCs from the real AST, z3/cvc5',
         'text': 'Reference-rewrite postconditions of RenameModel.simulate and RenameAppLabel.simulate: after the rename no relation '
@@ -134,7 +134,7 @@ PROPS = {
         'not_decided': ['Command.handle as a whole (option parsing, I/O) - only its gate callee is under contract'],
     },
     'C09': {
-        'families': ['contracts.graph', 'contracts.graph_edges', 'contracts.depcollect', 'contracts.graph_add'],
+        'families': ['contracts.graph', 'contracts.graph_edges', 'contracts.depcollect', 'contracts.graph_add', 'contracts.determinism'],
         'level': 'proof',
         'technique': 'contract-based deductive verification: VCs from the real AST (incl. DFS loop invariants), z3/cvc5',
         'text': 'Contracts on DependencyGraph (add_node, add_dependency, remove_dependencies, finalize, get_node, '
